@@ -337,3 +337,107 @@ def dot_rules(ctx, flavours):
             if n:
                 out.append(Obl('DOT-fmt', b['q'], b['span'], 'all %d formatted values use Display (written as supplied)' % n, not odd, 'ok' if not odd else 'formatted with ' + ', '.join(odd)))
     return out
+
+
+# ---------------------------------------------------------------------------------------------------------------------
+# DOT-skel: the literal text of an exporter (header, per-statement pieces, separators, footer), concatenated per loop nest in
+# execution order with `{}` for formatted values, is the same in every flavour that has the exporter.  Whether a piece is
+# written with push / push_str / format! / write! and how the pieces are split does not matter; dropping a separator or the
+# closing brace in one copy does.
+def _decode_template(v):
+    import ast
+    try:
+        raw = ast.literal_eval(v) if isinstance(v, str) and v[:2] in ('b"', "b'") else None
+    except Exception:
+        raw = None
+    if raw is None:
+        return str(v)
+    out, i = [], 0
+    while i < len(raw):
+        c = raw[i]
+        i += 1
+        if c == 0:
+            break
+        if c < 0x80:
+            out.append(raw[i:i + c].decode('utf-8', 'replace'))
+            i += c
+        else:
+            out.append('{}')
+    return ''.join(out)
+
+
+def _const_text(v):
+    import ast
+    v = str(v)
+    try:
+        if v[:1] in ('"', "'"):
+            return ast.literal_eval(v)
+    except Exception:
+        pass
+    return v
+
+
+def dot_skeleton(F, b):
+    pv, cfg = F.prov(b), F.cfg(b)
+    loops = cfg.loops()
+    sites = []
+    for bi, t in calls_in(b):
+        name = callee_name(t)
+        if name in ('std::string::String::push', 'std::string::String::push_str') and len(t['args']) == 2:
+            v = strip_payload(pv.of_operand(t['args'][1]))
+            if isinstance(v, tuple) and v and v[0] == 'const':
+                sites.append((bi, _const_text(v[1])))
+        elif name in ('<std::string::String as std::convert::From<&str>>::from', 'std::convert::From::from', 'std::string::ToString::to_string', 'std::borrow::ToOwned::to_owned',
+                      '<str as std::string::ToString>::to_string', '<str as std::borrow::ToOwned>::to_owned') and t['args'] and \
+                F.types[b['locals'][t['dst']['l']]].get('p') == 'std::string::String':
+            v = strip_payload(pv.of_operand(t['args'][0]))
+            if isinstance(v, tuple) and v and v[0] == 'const':
+                sites.append((bi, _const_text(v[1])))
+        elif t.get('local') and t.get('res') in F.bodies and any(a.get('k') in ('move', 'copy') and 'std::string::String' in F.types[b['locals'][a['pl']['l']]].get('s', '') and
+                                                                 F.types[b['locals'][a['pl']['l']]]['k'] == 'ref' for a in t['args']):
+            sites.append((bi, '{}'))     # a helper that appends into the text being built
+    for bi, disp, tpl in _emits(F, b):
+        sites.append((bi, _decode_template(tpl)))
+    # execution order: reverse post-order of the CFG (back edges ignored)
+    order, seen_ = [], set()
+
+    def dfs(x):
+        seen_.add(x)
+        for y in reversed(cfg.succ[x]):
+            if y not in seen_:
+                dfs(y)
+        order.append(x)
+    import sys
+    sys.setrecursionlimit(10000)
+    dfs(0)
+    rpo = {x: i for i, x in enumerate(reversed(order))}
+    groups = {}
+    for bi, text in sites:
+        nest = tuple(sorted(h for h, body in loops.items() if bi in body))
+        groups.setdefault(nest, []).append((rpo.get(bi, 10 ** 6), bi, text))
+    out = []
+    for nest, items in sorted(groups.items(), key=lambda kv: min(x[:2] for x in kv[1])):
+        txt = ''.join(x[2] for x in sorted(items))
+        txt = re.sub(r' *\{\} *', '{}', txt)          # how a formatted value is padded from its neighbours may live in a helper
+        txt = re.sub(r'(\{\})+', '{}', txt)
+        out.append((len(nest), txt))
+    return tuple(out)
+
+
+def dot_skel(ctx, flavours):
+    F = ctx.F
+    out = []
+    by_name = {}
+    for fl in flavours:
+        for n, b in sorted(_graph_methods(F, fl).items()):
+            if n.startswith('to_dot') or n == 'fmt_attr':
+                by_name.setdefault(n, {})[fl] = b
+    for n, m in sorted(by_name.items()):
+        sk = {fl: dot_skeleton(F, b) for fl, b in m.items()}
+        vals = list(sk.values())
+        common = max(set(vals), key=vals.count)
+        for fl, b in sorted(m.items()):
+            ok = sk[fl] == common and len(m) > 1 or len(m) == 1
+            out.append(Obl('DOT-skel', b['q'], b['span'], 'literal text of %s (per loop nest, in order) agrees with the other flavours (%d copies)' % (n, len(m)), ok,
+                           'skeleton %s' % (list(sk[fl]),) if ok else 'this copy writes %s, the others %s' % (list(sk[fl]), list(common))))
+    return out
